@@ -87,6 +87,13 @@ def run_case(case: Dict[str, Any], ctx) -> None:
         ctx.skip("second draw not comparable")
         return
     ctx.count("spy:scale-calls", len(A.scale_trace))
+    ctx.count("sanitizer:upstream-gradients-checked", 3)
+    if cfg.get("_layout"):
+        ctx.count("form:" + cfg["_layout"])
+    if cfg.get("_frozen"):
+        ctx.count("form:one-input-without-requires_grad")
+    if A.upstream_mutated or B.upstream_mutated or C.upstream_mutated:
+        ctx.violation(key("backward-modifies-the-upstream-gradient"), "the tensor passed to backward() changed during backward", cfg=cfg)
     if A.scale_trace != B.scale_trace or A.scale_trace != C.scale_trace:
         ctx.violation(key("scale-factors-differ-between-draws"), f"{A.scale_trace} vs {B.scale_trace} vs {C.scale_trace}", cfg=cfg)
     stol = 1e-11 if dtype == torch.float64 else 2 * tol  # fitted scalars of tiny low-precision tensors are noisy
